@@ -52,11 +52,31 @@ def run(ck, bindgen, tmp, quick):
         open(h, "w").write(hdr)
         lay = clang_layouts(h, tmp, "al%d" % b)
         rc, out, err, d = irdump.run_dump(bindgen, h, ["--no-layout-tests"], [], cwd=tmp, log=os.path.join(tmp, "allog%d" % b))
-        return j, lay, rc, d
+        # where rustc puts each allocation unit of each struct (the theorems of C03/Compose*.v take that byte offset as a hypothesis)
+        unit_at = {}
+        if rc == 0:
+            names = re.findall(r"pub struct (\w+) \{[^}]*?_bitfield_1\s*:", out)
+            src = "#![allow(warnings)]\n" + out + "\nfn main() {\n"
+            for n in names:
+                body = e2e.struct_body(out, n)
+                for k in re.findall(r"pub (_bitfield_\d+)\s*:", body):
+                    src += '    println!("%s %s {}", ::std::mem::offset_of!(%s, %s));\n' % (n, k, n, k)
+            src += "}\n"
+            rs = os.path.join(tmp, "ua%d.rs" % b)
+            open(rs, "w").write(src)
+            rc2, o2, e2 = sh2(["rustc", "--edition", "2021", "-A", "warnings", "-o", os.path.join(tmp, "ua%d" % b), rs], cwd=tmp, timeout=300)
+            if rc2 == 0:
+                rc3, o3, e3 = sh2([os.path.join(tmp, "ua%d" % b)], timeout=60)
+                for line in o3.splitlines():
+                    n, k, v = line.split()
+                    unit_at.setdefault(n, []).append(int(v))
+            else:
+                unit_at = None        # (the bindings of this header do not compile: C02's business, known classes E0587 / E0588 ...)
+        return j, lay, rc, d, unit_at
     with ThreadPoolExecutor(max_workers=vlib.NCPU) as ex:
         results = list(ex.map(one, jobs))
     rows, metas, hdr_of = [], [], {}
-    for (b, recs, hdr), lay, rc, d in results:
+    for (b, recs, hdr), lay, rc, d, unit_at in results:
         if lay is None:
             raise TieBroken("clang-record-layouts", "clang could not dump the layouts of a generated header")
         if rc != 0 or d is None or not d.complete:
@@ -95,6 +115,19 @@ def run(ck, bindgen, tmp, quick):
                 ck.broken("correspondence", "number of allocation units vs runs of bit-fields", json.dumps({"record": rec.text(), "runs": len(runs), "units": len(units)}))
                 continue
             packed = it.get("packed") == "1"
+            # hypothesis of the composition theorems: the unit of a run sits at the byte where the run's first field starts in C
+            if rec.kind == "struct" and unit_at and rec.name in unit_at and len(unit_at[rec.name]) == len(runs):
+                for k, (run_, at) in enumerate(zip(runs, unit_at[rec.name])):
+                    ck.count("alloc_units_with_rust_offset")
+                    first = run_[0][3]
+                    if first % 8:
+                        ck.count("alloc_runs_not_starting_on_a_byte")
+                    elif at != first // 8:
+                        grp = "packed-or-aligned" if rec.features & {"packed", "pragma-pack", "member-aligned", "type-aligned"} else "plain"
+                        ck.violation("C03-unit-offset:%s" % grp, "allocation unit %d sits at byte %d of the Rust struct; its first bit-field starts at bit %d (byte %d) of the C object" % (k + 1, at, first, first // 8),
+                                     {"record": rec.text(), "features": sorted(rec.features), "unit": k + 1, "rust_byte": at, "c_first_bit": first})
+            elif unit_at is None:
+                ck.count("alloc_headers_whose_bindings_do_not_compile")
             for run_, u in zip(runs, units):
                 impl = [(bf["off"], bf["width"]) for bf in u["bitfields"]]
                 rows.append("(%s, [%s], %d, [%s])" % ("true" if packed else "false",
